@@ -303,13 +303,47 @@ def flow_sweep(ck, dialect, n, enum_size=None):
     ck.extra.setdefault("control_flow_tie", {})[sub] = stat
 
 
+def bake_sweep(ck, dialect, n):
+    """Tie of the expression-level baking theorem (Props/Bake.bake_sound): its hypothesis `AllLoadsBaked` is read off the
+    real output — every emitted Load of every function has its own temporary (`_e<handle>` or the `let` name) in the text."""
+    sub = "cbake-" + dialect
+    out = ck.harness("cbake", n, extra_args=[dialect], timeout=3000, subdir=sub)
+    if out is None:
+        return
+    rows = common.read_lines(os.path.join(out, "rows.txt")) if os.path.exists(os.path.join(out, "rows.txt")) else []
+    if not rows:
+        ck.tie_broken("no-cases", "the harness produced no baking case for " + dialect, "")
+        return
+    srcs = common.read_lines(os.path.join(out, "src.txt"))
+    texts = common.read_lines(os.path.join(out, "text.txt"))
+    st = ck.stats.get(sub, {})
+    reported = 0
+    for i, r in enumerate(rows):
+        ck.case(sub + r + str(i), nontrivial=("loads=0" not in r))
+        if r.startswith("baked"):
+            continue
+        if reported < 3:
+            reported += 1
+            ck.violation({"kind": dialect + "-load-without-temporary", "row": r, "wgsl": unq(srcs[i][1:-1]),
+                          "emitted": unq(texts[i][1:-1])[:6000],
+                          "how": "a Load expression of naga's IR has no temporary of its own in the emitted text: the hypothesis of "
+                                 "Naga.Props.Bake.bake_sound (every load is evaluated where the IR emits it) is not met by this output; "
+                                 "Bake.unbaked_load_witness shows the order of evaluation can then differ. The executed sweeps (csem) "
+                                 "search for an input on which it matters"}, found_input=False)
+    for bad in ("function-not-in-text", "cparse-error"):
+        if st.get(bad):
+            ck.violation({"kind": "bake-tie-" + bad, "dialect": dialect, "count": st[bad]}, found_input=False)
+    ck.extra.setdefault("bake_tie", {})[sub] = {"functions": st.get("functions", 0), "loads": st.get("loads", 0),
+                                                 "unbaked": sum(1 for r in rows if not r.startswith("baked"))}
+
+
 def run(ck, dialect, prop_module, glsl_ub_excluded=False):
     ck.trusted = ["Lean kernel", "axioms: propext, Classical.choice, Quot.sound",
                   "L1 semantics: Sem.Ops / Sem.Wgsl (WGSL), Sem.COps / Sem.CLike (target language)",
                   "Go harness: generator, cparse (independent parser of the emitted text), probes"]
     if not ck.build_harness():
         return
-    proved = regenerate_and_prove(ck, [prop_module] + (["Naga.Props.CFlow"] if dialect == "msl" else ["Naga.Props.CFlowF"]))
+    proved = regenerate_and_prove(ck, [prop_module] + (["Naga.Props.CFlow"] if dialect == "msl" else ["Naga.Props.CFlowF"]) + ["Naga.Props.Bake"])
     if not ck.driver():
         return
     n = N.get(ck.tier, N["quick"])
@@ -323,6 +357,7 @@ def run(ck, dialect, prop_module, glsl_ub_excluded=False):
         flow_sweep(ck, dialect, {"quick": 300, "thorough": 6000}.get(ck.tier, 300))
         # exhaustive small scope: every statement tree of at most 3 (thorough: 4) nodes
         flow_sweep(ck, dialect, 0, enum_size={"quick": 3, "thorough": 4}.get(ck.tier, 3))
+    bake_sweep(ck, dialect, {"quick": 200, "thorough": 5000}.get(ck.tier, 200))
     sweep(ck, dialect, "csem", n, glsl_ub_excluded)
     if ck.tier == "thorough":
         ck.leanchecker(["Naga.Tie.CEmit", prop_module])
